@@ -153,6 +153,9 @@ def run(tier, seed, replay=None):
                     rev = list(range(At.dim()))[::-1]
                     srcA = np.asfortranarray(At.numpy()) if src == "numpy" else At.permute(rev).contiguous().permute(rev)
                     desc["memory_layout"] = "column-major"; dist["column-major source" + (" with a prescribed shape" if shape is not None else "")] = dist.get("column-major source" + (" with a prescribed shape" if shape is not None else ""), 0) + 1
+                elif i % 6 == 2 and src == "numpy" and At.dim() >= 1:   # a numpy view with a negative stride (a[::-1] of the reversed array: the same logical array)
+                    srcA = np.ascontiguousarray(At.numpy()[::-1])[::-1]
+                    desc["memory_layout"] = "negative stride"; dist["numpy source with a negative stride"] = dist.get("numpy source with a negative stride", 0) + 1
                 kw = {}
                 if rmax is not None: kw["rmax"] = rmax
                 x = torchtt.TT(srcA, shape=shape, eps=eps, **kw) if shape is not None else torchtt.TT(srcA, eps=eps, **kw)
@@ -166,7 +169,7 @@ def run(tier, seed, replay=None):
             Rk = [int(r) for r in x.R]
             if len(rec) == len(Rk) - 2 and not fails:
                 import ttgen as _tg
-                full = _tg.ref_full([c.detach().resolve_conj().numpy() for c in x.cores]).reshape(-1)
+                full = _tg.ref_full([c.detach().resolve_conj().resolve_neg().numpy() for c in x.cores]).reshape(-1)
                 err2 = float(np.sum(np.abs(full - At.numpy().reshape(-1).astype(full.dtype)) ** 2))
                 disc = sum(float(np.sum(np.abs(s[Rk[b + 1]:].astype(np.float64)) ** 2)) for b, (s, _, _) in enumerate(rec))
                 nrm2 = float(np.sum(np.abs(At.numpy().astype(np.complex128)) ** 2))
@@ -222,6 +225,17 @@ def run(tier, seed, replay=None):
                 V.fail("correspondence(model/impl) rank decision in TT-SVD", dict(desc, s=s, impl=r, model=m[0]), failing_input=False)
             else:
                 n_replay_ok += 1
+    # a binding rank cap given as a SMALL numpy integer type next to a long mode (n * r does not fit the type of r)
+    for j, (tp_, r_) in enumerate(((np.int8, 2), (np.uint8, 3), (np.int16, 2), (np.int8, 3))):
+        Nn = [[4, 100, 6], [3, 90, 5], [2, 20000, 3], [70, 60]][j]
+        A_ = torch.tensor(np.array([rng.gauss(0, 1) for _ in range(int(np.prod(Nn)))]).reshape(Nn), dtype=torch.float64)
+        desc = {"rmax_small_integer_type": tp_.__name__, "rmax": r_, "N": Nn}
+        try:
+            x_ = torchtt.TT(A_, eps=1e-12, rmax=tp_(r_))
+            if [int(v) for v in x_.N] != Nn or any(int(v) > r_ for v in x_.R) or list(x_.full().shape) != Nn: V.fail("TT(dense, rmax=<small numpy integer type>): wrong shape / rank above the cap", dict(desc, R=[int(v) for v in x_.R]))
+        except Exception as ex:
+            V.fail("TT(dense, rmax=<small numpy integer type>) raises %s" % type(ex).__name__, dict(desc, exc=str(ex)[:200]))
+        dist["rank cap of a small numpy integer type"] = dist.get("rank cap of a small numpy integer type", 0) + 1
     # operands whose squared norm under- / overflows although the norm itself is an ordinary number (harness/extremes.py)
     import extremes
     extremes.run(V, random.Random(seed + 5), torch, torchtt, [("TT(dense, eps)", lambda d_: torchtt.TT(d_, eps=1e-6), True, None),
@@ -328,7 +342,7 @@ def gen_case(rng, i):
     dd = len(shape) if shape is not None else len(N)
     if rng.random() < 0.3 and dd >= 2:
         rmax = rng.choice([1, 2, 3]) if rng.random() < 0.6 else [1] + [rng.choice([1, 2, 3, 100]) for _ in range(dd - 1)] + [1]
-        if isinstance(rmax, int) and rng.random() < 0.4: rmax = rng.choice([np.int64, np.int32])(rmax)        # rank caps computed with numpy (np.min, an entry of an integer array)
+        if isinstance(rmax, int) and rng.random() < 0.4: rmax = rng.choice([np.int64, np.int32, np.int8, np.uint8] if rmax < 100 else [np.int64, np.int32])(rmax)        # rank caps computed with numpy (np.min, an entry of an integer array)
         fam += "-rmax"
     return A, shape, float(eps), rmax, dtype, src, fam
 
@@ -349,7 +363,7 @@ def check_property(A, At, x, shape, eps, rmax, dtype, torch):
     d = len(want_shape)
     if R[0] != 1 or R[-1] != 1 or len(R) != d + 1:
         fails.append("ranks: boundary ranks / length of R wrong: %s" % R)
-    cores = [c.detach().resolve_conj().numpy() for c in x.cores]
+    cores = [c.detach().resolve_conj().resolve_neg().numpy() for c in x.cores]
     if any(c.shape[0] != R[k] or c.shape[-1] != R[k + 1] for k, c in enumerate(cores)):
         fails.append("ranks: R does not describe the cores")
     for k, c in enumerate(cores):                         # every core has the layout its object reports: (r, n, r') / (r, m, n, r')
